@@ -533,6 +533,11 @@ func (s *LinearState) Clear(ctx *Context) error {
 		return err
 	}
 	_, err := s.store.Clear(ctx, s.Name)
+	if err != nil {
+		// The facts are still stored, so they are still ours (as
+		// in IndexedState); the caller can try again.
+		return err
+	}
 	s.Facts = make(map[string]RawFact)
 	s.uncacheRules()
 	return err
